@@ -72,6 +72,11 @@ check("C17", "exploration",
   "The table model/acl.go is the specification of which entry points are internal/reserved (transcribed from the statement); unclassified methods are only checked for 'victim unchanged'.",
   "runtime monitoring: reflection-enumerated access-control sweep with key-level state-diff oracle", "DESIGN.md §5 C17")
 
+check("C05", "exploration",
+  "1-3 concurrent one-to-many groups (1-5 children over 1-3 destination chains, optional begin-failed child, optional over-declared size, group timeouts) are driven with randomly ordered child requests and success / failure / rollback / duplicate / late / never-begun reports; after every block the stored group record and the block's MultiTxCounter / TimeoutCounter / Counter are checked against the all-or-nothing statement (SUCCESS only with all declared children begun and succeeded; after the first failure or expiry never SUCCESS, every begun child failed/rolled back; source told about every earlier child, each destination holding a succeeded child told about it, in the failing block).",
+  "Accepted events are taken from receipts (acceptance itself is C02/C04's job); per-child states are read from the transaction manager's stored record because GetStatus(child) answers with the global state; n <= 5.",
+  "runtime monitoring: per-block group-state and notification-coverage oracle over generated child-event orders", "DESIGN.md §5 C05")
+
 ALL = [f"C{i:02d}" for i in range(1, 21)]
 REASON_PENDING = "check not built yet in this round; see DESIGN.md §5 for the planned monitor (no claim is made until the check runs clean on the unchanged tree)"
 
